@@ -17,6 +17,9 @@ var checkers = map[string]func(r *Report){
 	"C06": checkC06,
 	"C07": checkC07,
 	"C12": checkC12,
+	"C13": checkC13,
+	"C14": checkC14,
+	"C18": checkC18,
 	"C17": checkC17,
 }
 
